@@ -86,9 +86,8 @@ theorem select_sus (O : Ops F) (n : Nat) (offset u : F) (pop : Pop F) :
         | .ok none => .error .exec
         | .ok (some ws) =>
           match susIndices O ws n u with
-          | none => .error .panic
-          | some (.error e) => .error e
-          | some (.ok is) => .ok (pick pop is) := rfl
+          | .error e => .error e
+          | .ok is => .ok (pick pop is) := rfl
 theorem select_tournament (O : Ops F) (n size : Nat) (ss : List (List Nat)) (pop : Pop F) :
     select O (.tournament n size) (.sets ss) pop =
       if pop.length < size then .error .exec else tournamentRounds pop ss := rfl
@@ -105,9 +104,11 @@ theorem select_exponentialRank (O : Ops F) (n : Nat) (base : F) (is : List Nat) 
       | none => .error .panic
       | some objs => sampleWeighted O pop (exponentialRankWeights O base (reverseRank objs)) is := rfl
 theorem select_deRand (O : Ops F) (y : Nat) (ss : List (List Nat)) (pop : Pop F) :
-    select O (.deRand y) (.sets ss) pop = .ok (ss.flatMap fun s => pick pop s) := rfl
+    select O (.deRand y) (.sets ss) pop =
+      if pop.length < 2 * y + 1 then .error .exec else .ok (ss.flatMap fun s => pick pop s) := rfl
 theorem select_deBest (O : Ops F) (y : Nat) (ss : List (List Nat)) (pop : Pop F) :
     select O (.deBest y) (.sets ss) pop =
+      if pop.length < 2 * y then .error .exec else
       match best pop with
       | .error e => .error e
       | .ok none => .error .exec
@@ -118,7 +119,8 @@ theorem select_deCurrentToBest (O : Ops F) (y : Nat) (ss : List (List Nat)) (pop
       | .error e => .error e
       | .ok none => .error .exec
       | .ok (some b) =>
-        .ok ((pop.zip ss).flatMap fun (ind, s) => ind :: b :: pick (pop.filter (fun j => !sameInd j ind)) s) := rfl
+        if pop.any (fun ind => decide ((pop.filter (fun j => !sameInd j ind)).length < 2 * y - 1)) then .error .exec
+        else .ok ((pop.zip ss).flatMap fun (ind, s) => ind :: b :: pick (pop.filter (fun j => !sameInd j ind)) s) := rfl
 theorem select_iwo (O : Ops F) (a b : Nat) (w : Witness F) (pop : Pop F) :
     select O (.iwo a b) w pop =
       if b < a then .error .exec else
@@ -162,7 +164,6 @@ theorem select_mem (O : Ops F) (op : Op F) (w : Witness F) (pop sel : Pop F)
       · cases h
       · split at h
         · cases h
-        · cases h
         · injection h with h; subst h; exact fun x hx => mem_of_mem_pick hx
   · split_ifs at h
     exact tournamentRounds_mem h
@@ -174,11 +175,13 @@ theorem select_mem (O : Ops F) (op : Op F) (w : Witness F) (pop sel : Pop F)
   · split at h
     · cases h
     · rw [sampleWeighted_ok h]; exact fun x hx => mem_of_mem_pick hx
-  · injection h with h; subst h
+  · split_ifs at h
+    injection h with h; subst h
     intro x hx
     obtain ⟨s, _, hs⟩ := List.mem_flatMap.mp hx
     exact mem_of_mem_pick hs
-  · split at h
+  · split_ifs at h
+    split at h
     · cases h
     · cases h
     · next b hb =>
@@ -192,6 +195,7 @@ theorem select_mem (O : Ops F) (op : Op F) (w : Witness F) (pop sel : Pop F)
     · cases h
     · cases h
     · next b hb =>
+      split_ifs at h
       injection h with h; subst h
       intro x hx
       obtain ⟨p, hp, hs⟩ := List.mem_flatMap.mp hx
@@ -357,51 +361,66 @@ theorem length_flatMap_const {α β : Type} (l : List α) (f : α → List β) (
     rw [h a (by simp), ih (fun x hx => h x (by simp [hx]))]
     rw [Nat.succ_mul]; omega
 
-/-- DE family: `2y+1` individuals per member — when every sampled slice is large enough. -/
-theorem de_count (O : Ops F) (op : Op F) (ss : List (List Nat)) (pop sel : Pop F)
+/-- DE family: an `Ok` result consists of one block of exactly `2y+1` individuals per member. -/
+theorem de_blocks (O : Ops F) (op : Op F) (y : Nat) (hop : op = .deRand y ∨ op = .deBest y ∨ (op = .deCurrentToBest y ∧ 1 ≤ y))
+    (ss : List (List Nat)) (pop sel : Pop F)
     (hl : Legal op pop (.sets ss)) (h : select O op (.sets ss) pop = .ok sel) :
-    (∀ y, op = .deRand y → 2 * y + 1 ≤ pop.length → sel.length = pop.length * (2 * y + 1)) ∧
-    (∀ y, op = .deBest y → 2 * y ≤ pop.length → sel.length = pop.length * (2 * y + 1)) ∧
-    (∀ y, op = .deCurrentToBest y → 1 ≤ y →
-        (∀ ind ∈ pop, 2 * y - 1 ≤ (pop.filter (fun j => !sameInd j ind)).length) →
-        sel.length = pop.length * (2 * y + 1)) := by
-  refine ⟨?_, ?_, ?_⟩
-  · rintro y rfl hbig
-    simp only [Legal] at hl
+    ∃ blocks : List (Pop F), sel = blocks.flatten ∧ blocks.length = pop.length ∧
+      ∀ blk ∈ blocks, blk.length = 2 * y + 1 := by
+  rcases hop with rfl | rfl | ⟨rfl, hy⟩
+  · simp only [Legal] at hl
     rw [select_deRand] at h
+    split_ifs at h with hlt
     injection h with h; subst h
-    rw [length_flatMap_const ss _ (2 * y + 1), hl.1]
-    intro s hs
+    refine ⟨ss.map fun s => pick pop s, by rw [List.flatMap_def], by simp [hl.1], ?_⟩
+    intro blk hb
+    obtain ⟨s, hs, rfl⟩ := List.mem_map.mp hb
     obtain ⟨h1, _, h3⟩ := hl.2 s hs
     rw [pick_length pop s h3, h1]; omega
-  · rintro y rfl hbig
-    simp only [Legal] at hl
+  · simp only [Legal] at hl
     rw [select_deBest] at h
+    split_ifs at h with hlt
     split at h
     · cases h
     · cases h
-    · injection h with h; subst h
-      rw [length_flatMap_const ss _ (2 * y + 1), hl.1]
-      intro s hs
+    · next b _ =>
+      injection h with h; subst h
+      refine ⟨ss.map fun s => b :: pick pop s, by rw [List.flatMap_def], by simp [hl.1], ?_⟩
+      intro blk hb
+      obtain ⟨s, hs, rfl⟩ := List.mem_map.mp hb
       obtain ⟨h1, _, h3⟩ := hl.2 s hs
       simp only [List.length_cons]
       rw [pick_length pop s h3, h1]; omega
-  · rintro y rfl hy hbig
-    simp only [Legal] at hl
+  · simp only [Legal] at hl
     rw [select_deCurrentToBest] at h
     split at h
     · cases h
     · cases h
-    · injection h with h; subst h
-      rw [length_flatMap_const (pop.zip ss) _ (2 * y + 1)]
-      · simp [hl.1]
-      · rintro ⟨ind, s⟩ hp
-        obtain ⟨h1, _, h3⟩ := hl.2 (ind, s) hp
-        simp only at h1 h3
-        simp only [List.length_cons]
-        rw [pick_length _ s h3, h1]
-        have := hbig ind (List.of_mem_zip hp).1
-        omega
+    · next b _ =>
+      split_ifs at h with hany
+      injection h with h; subst h
+      refine ⟨(pop.zip ss).map fun (p : Ind F × List Nat) =>
+          p.1 :: b :: pick (pop.filter (fun j => !sameInd j p.1)) p.2, by rw [List.flatMap_def], by simp [hl.1], ?_⟩
+      intro blk hb
+      obtain ⟨p, hp, rfl⟩ := List.mem_map.mp hb
+      obtain ⟨h1, _, h3⟩ := hl.2 p hp
+      simp only [List.length_cons]
+      rw [pick_length _ p.2 h3, h1]
+      have hbig : ¬ (pop.filter (fun j => !sameInd j p.1)).length < 2 * y - 1 := by
+        intro hc
+        apply hany
+        rw [List.any_eq_true]
+        exact ⟨p.1, (List.of_mem_zip hp).1, by simpa using hc⟩
+      omega
+
+theorem length_flatten_const {α : Type} (l : List (List α)) (c : Nat) (h : ∀ a ∈ l, a.length = c) :
+    l.flatten.length = l.length * c := by
+  induction l with
+  | nil => simp
+  | cons a l ih =>
+    simp only [List.flatten_cons, List.length_append, List.length_cons]
+    rw [h a (by simp), ih (fun x hx => h x (by simp [hx]))]
+    rw [Nat.succ_mul]; omega
 
 end
 end MahfModel.Selection
